@@ -51,11 +51,18 @@ type run struct {
 	pending  sync.Map // goroutine id -> subscriber index (inside Subscribe)
 	pubStart   atomic.Int64
 	readerDone atomic.Bool
+	nextSub    atomic.Int64 // subscriber numbers handed out so far (a Receive call = one number; at most maxSub per run)
+	hookFired  bool         // reader goroutine only: a hook of the lock region fired during the current call
 }
+
+const maxSub = 12 // Sub of spec/pipe/SubsTrace.cfg
 
 func (r *run) rnd(n int) int { r.rngMu.Lock(); defer r.rngMu.Unlock(); return r.rng.Intn(n) }
 
-func (r *run) log(ev string, s int, c string, m int) { r.tr.Log(ev, "s", s, "c", c, "m", m) }
+func (r *run) log(ev string, s int, c string, m int) { r.tr.Log(ev, "s", s, "c", c, "m", m, "id", 0) }
+
+// logID: records of the registry that carry the subscription id the implementation used
+func (r *run) logID(ev string, s int, id int) { r.tr.Log(ev, "s", s, "c", "", "m", 0, "id", id) }
 
 func (r *run) hook(point string, obj any, a, b int) {
 	switch point {
@@ -67,21 +74,23 @@ func (r *run) hook(point string, obj any, a, b int) {
 		}
 		r.chanMu.Lock()
 		r.byChan[rueidis.VerifSubChan(obj)] = s
-		r.byID[a] = s
 		r.chanMu.Unlock()
-		r.log(point, s, "", 0)
+		r.logID(point, s, a)
 	case "subs.cancel":
 		if !r.subs.Is(obj) {
 			return
 		}
-		r.chanMu.Lock()
-		s := r.byID[a]
-		r.chanMu.Unlock()
-		r.log(point, s, "", 0)
+		// cancel runs on the goroutine of the Receive it belongs to; a is the id its closure removes
+		s := 0
+		if v, ok := r.pending.Load(vh.GoID()); ok {
+			s = v.(int)
+		}
+		r.logID(point, s, a)
 	case "subs.pub.begin":
 		if !r.subs.Is(obj) {
 			return
 		}
+		r.hookFired = true
 		r.nextMsg++
 		r.payID.Store(r.curPay, r.nextMsg)
 		r.log(point, 0, r.curChan, r.nextMsg)
@@ -97,6 +106,7 @@ func (r *run) hook(point string, obj any, a, b int) {
 	case "subs.unsub.begin": // logged before any subscriber channel is closed (the hook at the end of the critical
 		// section would come after a subscriber could already have seen its channel closed)
 		if r.subs.Is(obj) {
+			r.hookFired = true
 			r.log("subs.unsub", 0, r.curChan, 0)
 		}
 	default:
@@ -109,7 +119,69 @@ func (r *run) hook(point string, obj any, a, b int) {
 	}
 }
 
-func oneRun(rep *vh.Report, seed int64) []map[string]any {
+// oneReceive is one Receive call: Subscribe, consume (slowly or not at all), end by "context" or by channel close, cancel.
+func (r *run) oneReceive(rep *vh.Report, s int, srng *rand.Rand, short bool) {
+	r.pending.Store(vh.GoID(), s)
+	ch, cancel := r.subs.Subscribe(topics(s), nil)
+	if ch == nil {
+		r.log("SubNil", s, "", 0)
+		return
+	}
+	slow := srng.Intn(100) < 40
+	if !short && srng.Intn(100) < 25 {
+		// a Receive whose callback is stuck: nothing is consumed, the 16-slot buffer fills, Publish blocks holding the
+		// read lock; then the caller's context ends and cancel() must still get through (the drainer goroutine)
+		for t0 := time.Now(); time.Since(t0) < 300*time.Millisecond; time.Sleep(200 * time.Microsecond) {
+			if ps := r.pubStart.Load(); ps != 0 && time.Now().UnixNano()-ps > int64(3*time.Millisecond) {
+				break // a Publish has been blocked for 3 ms (very likely on this subscriber's full buffer)
+			}
+			if r.readerDone.Load() {
+				break
+			}
+		}
+		r.log("CtxDone", s, "", 0)
+		cancel()
+		return
+	}
+	limit := 1 + srng.Intn(40) // stop by "context" after this many messages (or earlier by close)
+	if short {
+		limit = 1 + srng.Intn(4)
+	}
+	last := 0
+	n := 0
+	for msg := range ch {
+		id := 0
+		if v, ok := r.payID.Load(msg.Message); ok {
+			id = v.(int)
+		}
+		r.log("Recv", s, "", id)
+		if id <= last {
+			rep.Violate("subs-order", fmt.Sprintf("subscriber %d received message %d after %d", s, id, last), r.tr.Events())
+		}
+		last = id
+		ok := false
+		for _, t := range topics(s) {
+			if t == msg.Channel {
+				ok = true
+			}
+		}
+		if !ok {
+			rep.Violate("subs-foreign-message", fmt.Sprintf("subscriber %d (topics %v) received a message of channel %q", s, topics(s), msg.Channel), r.tr.Events())
+		}
+		if slow {
+			time.Sleep(time.Duration(srng.Intn(300)) * time.Microsecond)
+		}
+		if n++; n >= limit {
+			r.log("CtxDone", s, "", 0)
+			cancel()
+			return
+		}
+	}
+	r.log("RecvClosed", s, "", 0)
+	cancel()
+}
+
+func oneRun(rep *vh.Report, seed int64) (events []map[string]any, stop bool) {
 	r := &run{tr: &vh.Tracer{}, rng: rand.New(rand.NewSource(seed)), byChan: map[<-chan rueidis.PubSubMessage]int{}, byID: map[int]int{}}
 	r.subs = rueidis.VerifNewSubs()
 	rueidis.SetVerifHook(r.hook)
@@ -122,70 +194,31 @@ func oneRun(rep *vh.Report, seed int64) []map[string]any {
 			panicked.Store(fmt.Sprintf("%s: %v", who, e))
 		}
 	}
-	nsub := 3 + r.rnd(4)
-	for s := 1; s <= nsub; s++ {
+	// Receive-like goroutines.  Each runs one to three Receives in a row (a new subscriber number each time), so that
+	// subscriptions start after others have ended - by their context, by an unsubscribe of their channel - while
+	// further ones are alive: the registry hands out ids, removes by id and must never give an id of a live
+	// subscription to a new one.
+	ngo := 3 + r.rnd(4)
+	for g := 1; g <= ngo; g++ {
 		wg.Add(1)
-		srng := rand.New(rand.NewSource(seed*17 + int64(s)))
-		go func(s int) {
+		srng := rand.New(rand.NewSource(seed*17 + int64(g)))
+		go func(g int) {
 			defer wg.Done()
-			defer guard(fmt.Sprintf("subscriber %d", s))
+			defer guard(fmt.Sprintf("receiver %d", g))
 			time.Sleep(time.Duration(srng.Intn(1500)) * time.Microsecond)
-			r.pending.Store(vh.GoID(), s)
-			ch, cancel := r.subs.Subscribe(topics(s), nil)
-			if ch == nil {
-				r.log("SubNil", s, "", 0)
-				return
-			}
-			slow := srng.Intn(100) < 40
-			if srng.Intn(100) < 25 {
-				// a Receive whose callback is stuck: nothing is consumed, the 16-slot buffer fills, Publish blocks holding the
-				// read lock; then the caller's context ends and cancel() must still get through (the drainer goroutine)
-				for t0 := time.Now(); time.Since(t0) < 300*time.Millisecond; time.Sleep(200 * time.Microsecond) {
-					if ps := r.pubStart.Load(); ps != 0 && time.Now().UnixNano()-ps > int64(3*time.Millisecond) {
-						break // a Publish has been blocked for 3 ms (very likely on this subscriber's full buffer)
-					}
-					if r.readerDone.Load() {
-						break
-					}
-				}
-				r.log("CtxDone", s, "", 0)
-				cancel()
-				return
-			}
-			limit := 1 + srng.Intn(40) // stop by "context" after this many messages (or earlier by close)
-			last := 0
-			n := 0
-			for msg := range ch {
-				id := 0
-				if v, ok := r.payID.Load(msg.Message); ok {
-					id = v.(int)
-				}
-				r.log("Recv", s, "", id)
-				if id <= last {
-					rep.Violate("subs-order", fmt.Sprintf("subscriber %d received message %d after %d", s, id, last), r.tr.Events())
-				}
-				last = id
-				ok := false
-				for _, t := range topics(s) {
-					if t == msg.Channel {
-						ok = true
-					}
-				}
-				if !ok {
-					rep.Violate("subs-foreign-message", fmt.Sprintf("subscriber %d (topics %v) received a message of channel %q", s, topics(s), msg.Channel), r.tr.Events())
-				}
-				if slow {
-					time.Sleep(time.Duration(srng.Intn(300)) * time.Microsecond)
-				}
-				if n++; n >= limit {
-					r.log("CtxDone", s, "", 0)
-					cancel()
+			rounds := 1 + srng.Intn(3)
+			for round := 0; round < rounds; round++ {
+				s := int(r.nextSub.Add(1))
+				if s > maxSub || r.readerDone.Load() {
 					return
 				}
+				short := round+1 < rounds || srng.Intn(2) == 0 // ends soon, so that the next one starts among live ones
+				r.oneReceive(rep, s, srng, short)
+				if srng.Intn(2) == 0 {
+					time.Sleep(time.Duration(srng.Intn(300)) * time.Microsecond)
+				}
 			}
-			r.log("RecvClosed", s, "", 0)
-			cancel()
-		}(s)
+		}(g)
 	}
 	wg.Add(1)
 	go func() { // the reader goroutine
@@ -195,13 +228,25 @@ func oneRun(rep *vh.Report, seed int64) []map[string]any {
 		for i := 0; i < nops; i++ {
 			c := []string{"a", "b"}[r.rnd(2)]
 			r.curChan = c
-			if x := r.rnd(100); x < 4 {
+			// every call is announced; one that returns without having reached its lock region took the lock-free
+			// fast path ("nobody is subscribed"), which the specification accepts only if that was true at some moment
+			// of the call
+			r.hookFired = false
+			if x := r.rnd(100); x < 6 {
+				r.log("UnsubCall", 0, c, 0)
 				r.subs.Unsubscribe(rueidis.PubSubSubscription{Kind: "unsubscribe", Channel: c})
+				if !r.hookFired {
+					r.log("UnsubSkip", 0, c, 0)
+				}
 			} else {
 				r.curPay = fmt.Sprintf("p%d", i)
+				r.log("PubCall", 0, c, 0)
 				r.pubStart.Store(time.Now().UnixNano())
 				r.subs.Publish(c, rueidis.PubSubMessage{Channel: c, Message: r.curPay})
 				r.pubStart.Store(0)
+				if !r.hookFired {
+					r.log("PubSkip", 0, c, 0)
+				}
 			}
 			if r.rnd(100) < 20 {
 				time.Sleep(time.Duration(r.rnd(200)) * time.Microsecond)
@@ -215,27 +260,24 @@ func oneRun(rep *vh.Report, seed int64) []map[string]any {
 	select {
 	case <-done:
 	case <-time.After(10 * time.Second):
-		rep.Violate("subs-deadlock", "reader or a cancelling subscriber still blocked after 10 s (Publish blocked on a full buffer while cancel waits for the lock?)", r.tr.Events())
-		return nil
+		rep.Violate("subs-deadlock", "reader, a Receive or a cancelling subscriber still blocked after 10 s (Publish blocked on a full buffer while cancel waits for the lock? a subscription whose channel is never closed?)", r.tr.Events())
+		return r.tr.Events(), true // what was recorded up to here is still a behaviour of the registry: it is validated too
 	}
 	if p := panicked.Load(); p != nil {
 		rep.Violate("subs-panic", p.(string), r.tr.Events())
-		return nil
+		return r.tr.Events(), true
 	}
-	return r.tr.Events()
+	return r.tr.Events(), false
 }
 
 func main() {
 	flag.Parse()
-	rep := &vh.Report{Rule: "subs runs: 3-6 subscribers with overlapping topics (40% slow consumers so buffers fill), one reader goroutine publishing 30-90 messages with occasional server-side unsubscribes, then Close; non-trivial when some Publish had to wait for a full buffer or a subscriber cancelled while messages were in flight; distinct by event sequence"}
+	rep := &vh.Report{Rule: "subs runs: 3-6 receiver goroutines running 1-3 Receives in a row (up to 12 subscriptions, overlapping topics, subscriptions starting after others ended while further ones are alive; 40% slow consumers so buffers fill), one reader goroutine publishing 30-90 messages with occasional server-side unsubscribes, then Close; non-trivial when some Publish had to wait for a full buffer or a subscriber cancelled while messages were in flight; distinct by event sequence"}
 	var traces [][]map[string]any
 	distinct := map[string]bool{}
 	for i := 0; i < *runs; i++ {
-		ev := oneRun(rep, vh.Seed()*6151+int64(i))
+		ev, stop := oneRun(rep, vh.Seed()*6151+int64(i))
 		rep.Evaluations++
-		if ev == nil {
-			continue
-		}
 		traces = append(traces, ev)
 		key := ""
 		for _, e := range ev {
@@ -248,6 +290,10 @@ func main() {
 				n = 40
 			}
 			rep.Sample(map[string]any{"events": ev[:n]})
+		}
+		if stop {
+			// a deadlock or a panic was reported: every further run would wait for its time-out again
+			break
 		}
 	}
 	rep.Traces = len(traces)
